@@ -521,11 +521,27 @@ Section Model.
       end
     end.
 
-  Definition bulk_load (l : list V) : tree :=
+  (** the construction proper; as shipped (tlx 704fd0b .. b06a490) it was applied to the range as given,
+      also in containers without duplicates: kept under this name, refuted in BulkDedup.v *)
+  Definition bulk_load_shipped (l : list V) : tree :=
     let n := length l in
     let num_leaves := (n + leafmax - 1) / leafmax in
     let leaves := map (fun vs => (Leaf vs, lastkey vs)) (distribute num_leaves l) in
     build_up (S n) leaves.
+
+  (** a tree without duplicates keeps the first entry of every run of equal keys, as insert(first,last)
+      does: item i is taken iff i is the first or key(item i-1) < key(item i) (btree.hpp bulk_load, the
+      counting loop and the skip loop compare with the immediate predecessor in the range) *)
+  Fixpoint dedup_from (prev : K) (l : list V) : list V :=
+    match l with
+    | [] => []
+    | x :: r => if ltb prev (key x) then x :: dedup_from (key x) r else dedup_from (key x) r
+    end.
+  Definition dedup (l : list V) : list V :=
+    match l with [] => [] | x :: r => x :: dedup_from (key x) r end.
+  Definition bulk_items (l : list V) : list V := if dup then l else dedup l.
+
+  Definition bulk_load (l : list V) : tree := bulk_load_shipped (bulk_items l).
 
   (** ** whole-tree operations of the facades *)
   (** copy_recursive preserves the node structure; clear frees every node *)
